@@ -54,7 +54,8 @@ TECHNIQUE = ("Lean 4 proofs over an executable model (BFS with explicit visited 
 DESIGN_REF = "DESIGN.md §5 C09"
 MODULES = ["TypelibModel.Props.C09"]
 TABLES = False
-RULE = ("programs = (a) every adjacency structure (self loops included) over 1-2 synthesised classes and a sample (quick) / all "
+RULE = ("programs = (0) per edge kind the two shapes of the fix history (Head -> LNode -> LNode through the same annotation under "
+        "the same field name; a self-referential class, its field annotation also as root); (a) every adjacency structure (self loops included) over 1-2 synthesised classes and a sample (quick) / all "
         "512 (thorough) over 3, a sample over 4, every DAG (strict upper triangle: sharing) over 3 and over 4 (a sample in quick); "
         "every edge drawn from {Optional[X], X | None, list[X], dict[str, X], "
         "tuple[X, ...], X itself, NewType of X, TypeAliasType of X, TypeAliasType of list[X], string-valued TypeAliasType of X / "
@@ -76,7 +77,7 @@ ASSUMPTIONS = [
 TRUSTED = ["harness/props/c09.py (program synthesis, graph extraction, oracle)", "lean/TypelibModel/Drv/Graph.lean (driver glue)",
            "hand-written model Model/Graph.lean tied to graph.py by this correspondence"]
 
-EDGE_KINDS = ["optional", "pipe", "none_first", "pipe_none_first", "list", "dict", "vartuple", "direct", "newtype", "alias", "alias_generic", "aliasstr",
+EDGE_KINDS = ["optional", "pipe", "none_first", "pipe_none_first", "union_alias", "union_newtype", "list", "dict", "vartuple", "direct", "newtype", "alias", "alias_generic", "aliasstr",
               "aliasstr_generic"]
 CONTAINERS = ["optional", "pipe", "none_first", "pipe_none_first", "list", "dict", "vartuple", "tuple2", "nested"]
 FLAVOURS = ["dataclass", "dataclass", "dataclass", "namedtuple", "typeddict", "plain"]
@@ -85,8 +86,13 @@ FLAVOURS = ["dataclass", "dataclass", "dataclass", "namedtuple", "typeddict", "p
 # ----------------------------------------------------------------------------------------------- program synthesis
 
 def _alias(prog, kind, target, module):
+    # the same alias object is reused for the same (kind, body): two fields then carry the very same annotation
+    for name, a in prog["aliases"].items():
+        if a["kind"] == kind and a["target"] == target and a.get("reuse"):
+            return ["wrap", "newtype" if kind == "newtype" else "alias", target, {"name": name}]
     name = f"{'NT' if kind == 'newtype' else 'AL'}{len(prog['aliases'])}"
-    prog["aliases"][name] = {"name": name, "module": module, "kind": kind, "target": target}
+    prog["aliases"][name] = {"name": name, "module": module, "kind": kind, "target": target,
+                             "reuse": prog.get("reuse_aliases", False)}
     return ["wrap", "newtype" if kind == "newtype" else "alias", target, {"name": name}]
 
 
@@ -100,6 +106,11 @@ def edge_type(kind, j, prog, module):
         return ["union", [["none"], target], {"sp": "typing"}]
     if kind == "pipe_none_first":
         return ["union", [["none"], target], {"sp": "pipe"}]
+    if kind == "union_alias":        # Union[Alias(Optional[X]), int]: a union hidden behind a value alias
+        return ["union", [_alias(prog, "alias", ["union", [target, ["none"]], {"sp": "optional"}], module), ["int"]],
+                {"sp": "typing"}]
+    if kind == "union_newtype":      # Union[NewType(X), None, str]
+        return ["union", [_alias(prog, "newtype", target, module), ["none"], ["str"]], {"sp": "typing"}]
     if kind == "list":
         return ["coll", "list", target, {"sp": "builtin"}]
     if kind == "dict":
@@ -145,7 +156,7 @@ def container(kind, inner):
 
 def topo_program(k, adj, rng, tag, style):
     """k classes, adj = set of (i, j) edges (class i has a field whose annotation mentions class j)."""
-    prog = {"classes": [], "aliases": {}}
+    prog = {"classes": [], "aliases": {}, "reuse_aliases": rng.random() < 0.6}
     two_mods = style in ("samename", "multimod")
     mods = [f"vm_{tag}_a", f"vm_{tag}_b"] if two_mods else [f"vm_{tag}_a"]
     for i in range(k):
@@ -228,7 +239,7 @@ def build_jobs(ctx):
     topo += [(3, adj) for adj in all_dags(3)]
     dags4 = [(4, adj) for adj in all_dags(4)]
     if quick:
-        topo += rng.sample(three, min(len(three), ctx.n(230, 512)))
+        topo += rng.sample(three, min(len(three), ctx.n(330, 512)))
         topo += rng.sample(dags4, min(len(dags4), ctx.n(16, 64)))
         for _ in range(ctx.n(10, 0)):
             topo.append((4, {p for p in pairs4 if rng.random() < 0.25}))
@@ -236,13 +247,29 @@ def build_jobs(ctx):
         topo += three + dags4
         for _ in range(ctx.n(0, 500)):
             topo.append((4, {p for p in pairs4 if rng.random() < 0.3}))
+    # fixed shapes from the fix history of graph.py, one per edge kind: Head -> LNode -> LNode through the SAME annotation
+    # under the SAME field name, and a self-referential class whose field annotation is also the root
+    for n, ek in enumerate(EDGE_KINDS):
+        for shape in ("head", "self"):
+            prog = {"classes": [], "aliases": {}, "reuse_aliases": True}
+            names = ["Head", "LNode"] if shape == "head" else ["Node"]
+            for i, nm in enumerate(names):
+                prog["classes"].append({"id": i, "name": nm, "qualname": nm, "module": f"vm_f{n}{shape}_a", "kind": "dataclass",
+                                        "opts": [], "fields": [], "required": [], "defaults": [], "members": [], "mixin": "none"})
+            tgt = len(names) - 1
+            for c in prog["classes"]:
+                c["fields"] = [["x", edge_type(ek, tgt, prog, c["module"])]]
+                c["required"] = ["x"]
+            roots = roots_for(prog, rng, True) + [{"ty": prog["classes"][0]["fields"][0][1], "kind": "field-annotation"}]
+            jobs.append({"prog": prog, "roots": roots, "family": "fixed",
+                         "meta": {"k": len(names), "edges": len(names), "cyclic": True, "style": "plain", "edge_kinds": [ek]}})
     for n, (k, adj) in enumerate(topo):
         style = rng.choice(["plain", "plain", "nested", "samename", "multimod"])
         prog, kinds_used = topo_program(k, adj, rng, f"t{n}", style)
         jobs.append({"prog": prog, "roots": roots_for(prog, rng, not quick or k < 3), "family": "topology",
                      "meta": {"k": k, "edges": len(adj), "cyclic": is_cyclic(k, adj), "style": style,
                               "edge_kinds": sorted(set(kinds_used))}})
-    for n in range(ctx.n(220, 1500)):
+    for n in range(ctx.n(330, 1500)):
         g = universe.Gen(rng, universe.Cfg(any_ok=True, classes=(0, 3), enums=(0, 1)))
         prog = g.program(f"u{n}")
         roots = [{"ty": g.ty(3), "kind": "annotation"} for _ in range(4)]
@@ -433,17 +460,27 @@ def key_of(n):
     return (n.type, n.unwrapped, n.var, n.cyclic)
 
 
-def spelling(T, seq, graph, refs):
-    """str / ForwardRef / NewType / value alias / repeated / un-memoised inputs: same sequence up to the root label."""
+def spelling(T, seq, graph, refs, strict):
+    """str / ForwardRef / NewType / value alias / repeated / un-memoised inputs: same sequence up to the root label.
+    `unwrap` is memoised on `==` and equal unions may list their members in different orders (the known
+    order-insensitive cache-key finding of C05 / C12): in a process that has already seen the other spelling of a
+    union, a difference in the ORDER of the nodes only is reported as "order-only" and re-checked by the parent in a
+    fresh fork (`strict`), where it counts."""
     import inspect
     import typing
-    bad, done = [], []
+    bad, done, order_only = [], [], []
 
     def same_upto_root(other, label):
-        if [key_of(n) for n in other[:-1]] != [key_of(n) for n in seq[:-1]]:
-            return False
         lo, ls = other[-1], seq[-1]
-        return lo.type == label and lo.unwrapped == ls.unwrapped and lo.var is None and lo.cyclic is False
+        if not (lo.type == label and lo.unwrapped == ls.unwrapped and lo.var is None and lo.cyclic is False):
+            return False
+        a, b = [key_of(n) for n in other[:-1]], [key_of(n) for n in seq[:-1]]
+        if a == b:
+            return True
+        if not strict and len(a) == len(b) and all(x in b for x in a) and all(x in a for x in b):
+            order_only.append(repr(label))
+            return True
+        return False
 
     try:
         again = graph.static_order(T)
@@ -470,10 +507,10 @@ def spelling(T, seq, graph, refs):
             done += ["str", "forwardref"]
     except BaseException as e:  # noqa: BLE001
         bad.append(f"spelling variant raised {type(e).__name__}: {e}"[:200])
-    return bad, done
+    return bad, done, order_only
 
 
-def one_root(T, extra_models=True):
+def one_root(T, extra_models=True, strict=False):
     import typing
     from typelib import graph
     from typelib.py import refs
@@ -493,9 +530,11 @@ def one_root(T, extra_models=True):
         return out
     out["real"] = [node_view(n, ids, child_ids) for n in seq]
     out["oracle"] = oracle(seq, T, refs)
-    sp_bad, sp_done = spelling(T, seq, graph, refs)
+    sp_bad, sp_done, order_only = spelling(T, seq, graph, refs, strict)
     out["oracle"] += sp_bad
     out["spelled"] = sp_done
+    if order_only:
+        out["order_only"] = order_only
     if isinstance(T, typing.TypeAliasType) and isinstance(T.__value__, str):
         n = seq[0]
         if not (len(seq) == 1 and n.type is T and type(n.unwrapped) is typing.ForwardRef
@@ -533,7 +572,7 @@ def run_prog(job):
         except BaseException as e:  # noqa: BLE001
             outs.append({"setup_err": f"annotation: {type(e).__name__}: {e}"[:200]})
             continue
-        outs.append(one_root(T, extra_models=job.get("family") != "universe" or True))
+        outs.append(one_root(T, strict=bool(job.get("cold"))))
     return {"roots": outs}
 
 
@@ -574,7 +613,7 @@ def compare(res, inp, real, tys, rootid, m, what):
     res.count("agree:" + what)
 
 
-def evaluate(jobs, res):
+def evaluate(jobs, res, cold=False):
     core.import_typelib()
     outs = iso.map_isolated(run_prog, jobs, timeout=120.0)
     lines, index = [], []
@@ -599,6 +638,17 @@ def evaluate(jobs, res):
             for vi, v in enumerate(o.get("variants", [])):
                 lines.append(model_op(v["tys"], v["rootid"]))
                 index.append((ji, ri, vi))
+    # order-only differences between spellings under warm caches: once more, alone, in a fresh fork
+    if not cold:
+        again = [{"prog": job["prog"], "roots": [r], "family": job.get("family"), "meta": {}, "cold": True}
+                 for job, out in zip(jobs, outs) if isinstance(out, dict) and "roots" in out
+                 for r, o in zip(job["roots"], out["roots"]) if o.get("order_only")]
+        if again:
+            res.count("spelling:order-only-under-warm-caches:rechecked-cold", len(again))
+            sub = Result()
+            evaluate(again, sub, cold=True)
+            res.failures += sub.failures
+            res.disagreements += sub.disagreements
     answers = lean.drive(lines) if lines else []
     res.programs += len(jobs)
     pkeys = {}
@@ -618,7 +668,7 @@ def evaluate(jobs, res):
         res.count("family:" + job.get("family", "?"))
         res.count("root:" + r.get("kind", "?"))
         meta = job.get("meta", {})
-        if ri == 0 and job.get("family") == "topology":
+        if ri == 0 and job.get("family") in ("topology", "fixed"):
             res.count(f"topology:k={meta.get('k')}:{'cyclic' if meta.get('cyclic') else 'dag'}")
             res.count("style:" + meta.get("style", "?"))
             for ek in meta.get("edge_kinds", []):
